@@ -126,11 +126,18 @@ func c12Run(r *rt.Rec, rng *rand.Rand, n int) {
 			continue
 		}
 		gen.Reproject(rng, base)
-		if rng.Intn(6) == 0 && len(base.Vars) >= 2 {
-			// order by aggregate outputs
+		if rng.Intn(5) == 0 && len(base.Vars) >= 2 {
+			// order by grouping keys and aggregate outputs
 			k := base.Vars[0]
-			base.Vars = []bq.Proj{k, {Binding: base.Vars[1].Binding, Alias: "?cnt", Op: "count"}}
-			base.GroupBy = []string{k.Out()}
+			if len(base.Vars) >= 3 && rng.Intn(2) == 0 {
+				// two grouping keys, written in GROUP BY in another sequence than in SELECT
+				k2 := base.Vars[1]
+				base.Vars = []bq.Proj{k, k2, {Binding: base.Vars[2].Binding, Alias: "?cnt", Op: "count"}}
+				base.GroupBy = []string{k2.Out(), k.Out()}
+			} else {
+				base.Vars = []bq.Proj{k, {Binding: base.Vars[1].Binding, Alias: "?cnt", Op: "count"}}
+				base.GroupBy = []string{k.Out()}
+			}
 		}
 		t0, err, pan := runQ(ctx, r, data, base.Text())
 		if pan || err != nil || t0 == nil {
@@ -163,6 +170,12 @@ func c12Run(r *rt.Rec, rng *rand.Rand, n int) {
 				}
 			}
 			q1.OrderBy = append(q1.OrderBy, o)
+		}
+		if len(base.GroupBy) > 0 && rng.Intn(2) == 0 {
+			q1.OrderBy = nil
+			for _, g := range base.GroupBy[:1+rng.Intn(len(base.GroupBy))] {
+				q1.OrderBy = append(q1.OrderBy, bq.Order{Binding: g, Dir: []string{"", "ASC"}[rng.Intn(2)]})
+			}
 		}
 		keys := dedupKeys(q1.OrderBy)
 		class := "orderby"
